@@ -1,1 +1,752 @@
-/-! C10 — property theorems (none yet). -/
+import Req.Client.Retry
+import Req.Client.Attempt
+import Req.Client.Backoff
+import Req.Lemmas.C10Loop
+import Req.Lemmas.C10Attempt
+/-!
+C10 — retry: bounded, condition-driven, every attempt sends the same request.
+
+All theorems are about the REPAIRED code (`Variant.repaired`, i.e. /repo with
+fixes/C10-1 … C10-6 applied); for the code as found the corresponding statements are false and
+the counter-examples are `decide`d at the end of each part (`asFound_*`) and replayed on the
+implementation by the lanes (`c10Witnesses` in the harness).
+
+Part 1 (this section): the loop.  `script` is the sequence of round-trip outcomes, one per
+iteration; `ra` is `Request.RetryAttempt` when the loop is entered (0 in `run`).
+-/
+namespace Req.Props.C10
+open Req.Retry Req.Lemmas.C10Loop
+
+variable {σ W : Type} (p : Policy σ) (mw : Nat → σ → σ × W)
+
+/-- The number of leading iterations after which the specification `wants` a further attempt. -/
+def retries : List Outcome → Nat → Nat
+  | [], _ => 0
+  | o :: rest, ra => if wants p o ra then retries rest (ra + 1) + 1 else 0
+
+/-- The number of iterations (attempts) the specification allows on `script`: one more than the
+retries it asks for, as far as the script goes. -/
+def specAttempts (script : List Outcome) (ra : Nat) : Nat := min (retries p script ra + 1) script.length
+
+theorem specAttempts_cons (o : Outcome) (rest : List Outcome) (ra : Nat) :
+    specAttempts p (o :: rest) ra = 1 + (if wants p o ra then specAttempts p rest (ra + 1) else 0) := by
+  have hr : retries p (o :: rest) ra = (if wants p o ra then retries p rest (ra + 1) + 1 else 0) := rfl
+  unfold specAttempts
+  rw [hr]
+  split <;> simp <;> omega
+
+/-- The loop makes exactly the attempts the specification allows. -/
+theorem iterations_loop (script : List Outcome) (ra : Nat) (st : σ) (prev : Option Resp) :
+    iterations (loop R p mw script ra st prev).1 = specAttempts p script ra := by
+  induction script generalizing ra st prev with
+  | nil => simp [loop, iterations, specAttempts]
+  | cons o rest ih =>
+    rw [specAttempts_cons]
+    by_cases h : wants p o ra = true
+    · obtain ⟨ev, hev, hi, -⟩ := iter_cont p mw o ra st prev h
+      rw [loop_cons_cont p mw o rest ra st prev h, iterations_append, ih, hev]
+      simp [h, hi]
+    · have h' : wants p o ra = false := by simpa using h
+      obtain ⟨ev, fin, hev, hi, -⟩ := iter_stop p mw o ra st prev h'
+      obtain ⟨fin', _, hl⟩ := loop_cons_stop p mw o rest ra st prev h'
+      rw [hl, hev]
+      simp [h', hi]
+
+/-- **retry_iff** (one pass): the loop goes round again exactly when the specification asks for
+it: no middleware aborted the call, the context was not cancelled, retries are enabled and not
+used up (or unbounded), and the conditions — or, with none, the default rule "an error
+occurred" — say yes. -/
+theorem retry_iff_step (o : Outcome) (ra : Nat) (st : σ) (prev : Option Resp) :
+    (∃ x, (iteration R p mw o ra st prev).2 = .inr x) ↔ wants p o ra = true := by
+  constructor
+  · rintro ⟨x, hx⟩
+    by_cases h : wants p o ra = true
+    · exact h
+    · have h' : wants p o ra = false := by simpa using h
+      obtain ⟨ev, fin, hev, -⟩ := iter_stop p mw o ra st prev h'
+      simp [hev] at hx
+  · intro h
+    obtain ⟨ev, hev, -⟩ := iter_cont p mw o ra st prev h
+    exact ⟨(nextState p mw o ra st, some (respOf o ra)), by rw [hev]⟩
+
+/-- What `wants` means, spelled out. -/
+theorem wants_iff (o : Outcome) (ra : Nat) :
+    wants p o ra = true ↔
+      o ≠ .beforeErr ∧ aborted p o ra = false ∧ o ≠ .cancelled ∧ p.enabled = true ∧
+      (p.maxRetries < 0 ∨ (ra : Int) < p.maxRetries) ∧
+      (if p.conds.isEmpty then o.errKind.isSome = true
+       else ∃ c ∈ p.conds, c.2 ⟨ra, o.view, o.errKind⟩ = true) := by
+  unfold wants need
+  by_cases hc : p.conds.isEmpty = true <;>
+    simp [hc, and_assoc]
+
+/-- **retry_iff** (whole run): attempt `k+1` happens iff attempt `k` happened, the script has an
+outcome for it, and the specification wanted a retry after attempt `k`. -/
+theorem retry_iff (script : List Outcome) (ra : Nat) (st : σ) (prev : Option Resp) (k : Nat) :
+    k + 1 < iterations (loop R p mw script ra st prev).1 ↔
+      k < iterations (loop R p mw script ra st prev).1 ∧ k + 1 < script.length ∧
+      ∃ o, script[k]? = some o ∧ wants p o (ra + k) = true := by
+  rw [iterations_loop]
+  induction script generalizing ra k with
+  | nil => simp [specAttempts]
+  | cons o rest ih =>
+    rw [specAttempts_cons]
+    cases k with
+    | zero =>
+      have hpos : 0 < specAttempts p rest (ra + 1) ↔ 0 < rest.length := by
+        unfold specAttempts; omega
+      by_cases h : wants p o ra = true <;> simp [h, hpos] <;> omega
+    | succ k =>
+      have e : ra + (k + 1) = ra + 1 + k := by omega
+      by_cases h : wants p o ra = true
+      · have hih := ih (ra + 1) k
+        simp only [h, ↓reduceIte, List.length_cons, List.getElem?_cons_succ, e]
+        constructor
+        · intro h1
+          obtain ⟨a, b, c⟩ := hih.mp (by omega)
+          exact ⟨by omega, by omega, c⟩
+        · rintro ⟨a, b, c⟩
+          have := hih.mpr ⟨by omega, by omega, c⟩
+          omega
+      · simp [h]
+
+/-- **attempts_bound**: with a non-negative retry count `N` at most `N + 1` attempts are made. -/
+theorem retries_le (script : List Outcome) (ra : Nat) (hN : 0 ≤ p.maxRetries) :
+    retries p script ra ≤ (p.maxRetries - ra).toNat := by
+  induction script generalizing ra with
+  | nil => simp [retries]
+  | cons o rest ih =>
+    unfold retries
+    split
+    next h =>
+      have hw := (wants_iff p o ra).mp h
+      have := ih (ra + 1)
+      have hlt : (ra : Int) < p.maxRetries := by
+        rcases hw.2.2.2.2.1 with h1 | h1
+        · omega
+        · exact h1
+      omega
+    next => omega
+
+theorem attempts_bound (unreplayable : Bool) (script : List Outcome) (st : σ) (hN : 0 ≤ p.maxRetries) :
+    iterations (run R p mw unreplayable script st).events ≤ p.maxRetries.toNat + 1 := by
+  unfold run
+  split
+  · simp [iterations]
+  · simp only [iterations_loop, specAttempts]
+    have := retries_le p script 0 hN
+    simp at this
+    omega
+
+/-- No more requests go on the wire than attempts are made. -/
+theorem wires_le_iterations (script : List Outcome) (ra : Nat) (st : σ) (prev : Option Resp) :
+    (wires (loop R p mw script ra st prev).1).length ≤ iterations (loop R p mw script ra st prev).1 := by
+  induction script generalizing ra st prev with
+  | nil => simp [loop, wires]
+  | cons o rest ih =>
+    by_cases h : wants p o ra = true
+    · obtain ⟨ev, hev, hi, hw, -⟩ := iter_cont p mw o ra st prev h
+      rw [loop_cons_cont p mw o rest ra st prev h, iterations_append, wires_append, hev]
+      have := ih (ra + 1) (nextState p mw o ra st) (some (respOf o ra))
+      simp only [hw, hi, List.length_append, List.length_cons, List.length_nil]
+      omega
+    · have h' : wants p o ra = false := by simpa using h
+      obtain ⟨ev, fin, hev, hi, _, hw, -⟩ := iter_stop p mw o ra st prev h'
+      obtain ⟨fin', _, hl⟩ := loop_cons_stop p mw o rest ra st prev h'
+      rw [hl, hev]
+      simp only [hw, hi]
+      split <;> simp
+
+theorem wire_bound (unreplayable : Bool) (script : List Outcome) (st : σ) (hN : 0 ≤ p.maxRetries) :
+    (wires (run R p mw unreplayable script st).events).length ≤ p.maxRetries.toNat + 1 := by
+  have h1 := attempts_bound p mw unreplayable script st hN
+  unfold run at *
+  split
+  · simp [wires]
+  · rename_i hc
+    simp only [hc] at h1
+    exact Nat.le_trans (wires_le_iterations p mw script 0 st none) h1
+
+/-- Without a retry option, or with a count of 0, exactly one attempt is made. -/
+theorem single_attempt (script : List Outcome) (ra : Nat) (st : σ) (prev : Option Resp)
+    (h : p.enabled = false ∨ p.maxRetries = 0) (hs : script ≠ []) :
+    iterations (loop R p mw script ra st prev).1 = 1 := by
+  rw [iterations_loop]
+  cases script with
+  | nil => exact absurd rfl hs
+  | cons o rest =>
+    rw [specAttempts_cons]
+    have : wants p o ra = false := by
+      cases hw : wants p o ra with
+      | false => rfl
+      | true =>
+        have := (wants_iff p o ra).mp hw
+        rcases h with h | h
+        · simp [h] at this
+        · have := this.2.2.2.2.1; omega
+    simp [this]
+
+/-- **unbounded only for a negative count**: with `N < 0` the loop goes on for as long as the
+outcomes ask for it (here: the whole script, whatever its length). -/
+theorem unbounded_when_negative (script : List Outcome) (ra : Nat) (st : σ) (prev : Option Resp)
+    (hall : ∀ k o, script[k]? = some o → wants p o (ra + k) = true) :
+    iterations (loop R p mw script ra st prev).1 = script.length := by
+  rw [iterations_loop]
+  induction script generalizing ra with
+  | nil => simp [specAttempts]
+  | cons o rest ih =>
+    rw [specAttempts_cons]
+    have h0 := hall 0 o (by simp)
+    simp only [Nat.add_zero] at h0
+    have := ih (ra + 1) (fun k o' hk => by
+      have := hall (k + 1) o' (by simpa using hk)
+      have e : ra + (k + 1) = ra + 1 + k := by omega
+      rwa [e] at this)
+    simp [h0, this]; omega
+
+theorem range_flatMap_succ {α : Type} (f : Nat → List α) (n : Nat) :
+    (List.range (n + 1)).flatMap f = f 0 ++ (List.range n).flatMap fun j => f (j + 1) := by
+  simp [List.range_succ_eq_map, List.flatMap_map]
+
+/-- **hooks_once_per_retry**: the calls of retry hooks and of the interval function over the
+whole run are, for retry number `j = 1, 2, …` in turn: every registered hook once, in reverse
+registration order, then the interval function once — all with attempt number `j`. -/
+theorem hooks_once_per_retry (script : List Outcome) (ra : Nat) (st : σ) (prev : Option Resp) :
+    calls (loop R p mw script ra st prev).1 =
+      (List.range (retries p script ra)).flatMap fun j => block p (ra + j + 1) := by
+  induction script generalizing ra st prev with
+  | nil => simp [loop, calls, retries]
+  | cons o rest ih =>
+    by_cases h : wants p o ra = true
+    · obtain ⟨ev, hev, _, _, hc⟩ := iter_cont p mw o ra st prev h
+      rw [loop_cons_cont p mw o rest ra st prev h, calls_append, ih, hev]
+      have hr : retries p (o :: rest) ra = retries p rest (ra + 1) + 1 := by simp [retries, h]
+      have hf : (fun j => block p (ra + (j + 1) + 1)) = fun j => block p (ra + 1 + j + 1) := by
+        funext j
+        have e : ra + (j + 1) + 1 = ra + 1 + j + 1 := by omega
+        rw [e]
+      rw [hr, range_flatMap_succ, hf, hc]
+    · have h' : wants p o ra = false := by simpa using h
+      obtain ⟨ev, fin, hev, _, hc, -⟩ := iter_stop p mw o ra st prev h'
+      obtain ⟨fin', _, hl⟩ := loop_cons_stop p mw o rest ra st prev h'
+      rw [hl, hev]
+      simp [hc, retries, h']
+
+/-- The response `resp` holds before iteration `k` of the loop (`prev` before the first). -/
+def respBefore (prev : Option Resp) (script : List Outcome) (ra : Nat) : Nat → Option Resp
+  | 0 => prev
+  | k + 1 => (script[k]?).map fun o => respOf o (ra + k)
+
+/-- **result_is_last**: when `do` returns, the response is the one of the last attempt `k`, and
+the error is that attempt's round-trip error — or the error of the request-level response
+middleware that aborted that attempt.  (If the last iteration never reached the wire because a
+request middleware failed, the error is that middleware's and `resp` is still the previous
+attempt's response.) -/
+theorem result_is_last (script : List Outcome) (ra : Nat) (st : σ) (prev : Option Resp)
+    (ev : List (Event W)) (resp : Option Resp) (err : Option Err)
+    (h : loop R p mw script ra st prev = (ev, .done resp err)) :
+    ∃ k o, script[k]? = some o ∧ iterations ev = k + 1 ∧
+      (o ≠ .beforeErr →
+        resp = some (respOf o (ra + k)) ∧
+        (err = o.errKind.map (ra + k, ·) ∨
+          (aborted p o (ra + k) = true ∧ ∃ j, err = some (ra + k, .after j)))) ∧
+      (o = .beforeErr → resp = respBefore prev script ra k ∧ err = some (ra + k, .before)) := by
+  induction script generalizing ra st prev ev with
+  | nil => simp [loop] at h
+  | cons o rest ih =>
+    by_cases hw : wants p o ra = true
+    · obtain ⟨ev1, hev, hi, -⟩ := iter_cont p mw o ra st prev hw
+      rw [loop_cons_cont p mw o rest ra st prev hw] at h
+      simp only [Prod.mk.injEq] at h
+      obtain ⟨hev2, hfin⟩ := h
+      obtain ⟨k, o', hk, hit, h1, h2⟩ := ih (ra + 1) (nextState p mw o ra st) (some (respOf o ra)) _
+        (Prod.ext rfl hfin)
+      have e : ra + 1 + k = ra + (k + 1) := by omega
+      refine ⟨k + 1, o', by simpa using hk, ?_, ?_, ?_⟩
+      · rw [← hev2, iterations_append, hit, hev]; simp [hi]; omega
+      · rw [← e]; exact h1
+      · intro hb
+        obtain ⟨hr, he⟩ := h2 hb
+        rw [← e]
+        refine ⟨?_, he⟩
+        rw [hr]
+        cases k with
+        | zero => simp [respBefore]
+        | succ j =>
+          have e2 : ra + 1 + j = ra + (j + 1) := by omega
+          simp [respBefore, e2]
+    · have hw' : wants p o ra = false := by simpa using hw
+      obtain ⟨ev1, fin, hev, hi, _, _, hb, hnb⟩ := iter_stop p mw o ra st prev hw'
+      obtain ⟨fin', hf', hl⟩ := loop_cons_stop p mw o rest ra st prev hw'
+      rw [hl, hev] at h
+      simp only [Prod.mk.injEq] at h
+      rw [hev] at hf'
+      simp only [Sum.inl.injEq] at hf'
+      obtain ⟨rfl, hfin⟩ := h
+      subst hf'
+      refine ⟨0, o, by simp, by simp [hi], ?_, ?_⟩
+      · intro ho
+        obtain ⟨err', hd, hcase⟩ := hnb ho
+        rw [hfin] at hd
+        simp only [Final.done.injEq] at hd
+        obtain ⟨rfl, rfl⟩ := hd
+        exact ⟨rfl, hcase⟩
+      · intro ho
+        have := hb ho
+        rw [hfin] at this
+        simp only [Final.done.injEq] at this
+        obtain ⟨rfl, rfl⟩ := this
+        exact ⟨rfl, rfl⟩
+
+/-- The repaired loop always returns: no nil dereference. -/
+theorem repaired_never_panics (script : List Outcome) (ra : Nat) (st : σ) (prev : Option Resp) :
+    (loop R p mw script ra st prev).2 ≠ .panic := by
+  induction script generalizing ra st prev with
+  | nil => simp [loop]
+  | cons o rest ih =>
+    by_cases hw : wants p o ra = true
+    · rw [loop_cons_cont p mw o rest ra st prev hw]; exact ih _ _ _
+    · have hw' : wants p o ra = false := by simpa using hw
+      obtain ⟨ev1, fin, hev, _, _, _, hb, hnb⟩ := iter_stop p mw o ra st prev hw'
+      obtain ⟨fin', hf', hl⟩ := loop_cons_stop p mw o rest ra st prev hw'
+      rw [hl]
+      rw [hev] at hf'
+      simp only [Sum.inl.injEq] at hf'
+      subst hf'
+      by_cases ho : o = .beforeErr
+      · rw [hb ho]; simp
+      · obtain ⟨e, he, -⟩ := hnb ho
+        rw [he]; simp
+
+/-- **unreplayable_fails_upfront**: a retryable request (retry option present, count ≠ 0) with a
+body that cannot be replayed is refused before anything is sent … -/
+theorem unreplayable_fails_upfront (v : Variant) (script : List Outcome) (st : σ)
+    (he : p.enabled = true) (hn : p.maxRetries ≠ 0) :
+    (run v p mw true script st).final = .refused ∧ (run v p mw true script st).events = [] := by
+  simp [run, he, hn]
+
+/-- … and conversely an unreplayable body is only ever sent when no retry can follow: at most
+once. -/
+theorem unreplayable_sent_at_most_once (script : List Outcome) (st : σ)
+    (h : (run R p mw true script st).final ≠ .refused) :
+    (wires (run R p mw true script st).events).length ≤ 1 := by
+  unfold run at *
+  split
+  · simp [wires]
+  · rename_i hc
+    have hd : p.enabled = false ∨ p.maxRetries = 0 := by
+      by_cases he : p.enabled = true
+      · by_cases hn : p.maxRetries = 0
+        · exact Or.inr hn
+        · simp [he, hn] at hc
+      · exact Or.inl (by simpa using he)
+    cases script with
+    | nil => simp [loop, wires]
+    | cons o rest =>
+      have := single_attempt p mw (o :: rest) 0 st none hd (by simp)
+      exact Nat.le_trans (wires_le_iterations p mw (o :: rest) 0 st none) (by omega)
+
+/-! ## Part 2 — every attempt puts the same request on the wire -/
+
+section wire
+open Req.Attempt Req.Lemmas.C10Attempt
+
+/-- After the first application of the request middleware every later application reproduces
+the first one's wire request (and leaves the carried state alone). -/
+theorem mw_after_first (c : ClientCfg) (st : ReqState) (hr : unreplayable R st = false) (k : Nat) :
+    Attempt.mw R c (k + 1) (stateAt R c st (k + 1)) = Attempt.mw R c 0 st := by
+  induction k with
+  | zero => exact mw_fix c 0 0 st hr
+  | succ k ih =>
+    have : stateAt R c st (k + 1 + 1) = (Attempt.mw R c 0 st).1 := by
+      show (Attempt.mw R c (k + 1) (stateAt R c st (k + 1))).1 = _
+      rw [ih]
+    rw [this]
+    exact mw_fix c 0 (k + 1) st hr
+
+/-- **attempts_identical**: as long as nothing but the library's own middleware touches the
+request between attempts, attempt `k+1` puts exactly the request of attempt `k` on the wire —
+method, URL, query, headers, cookies and complete body — for every request that `Do` does not
+refuse up front. -/
+theorem attempts_identical (c : ClientCfg) (st : ReqState) (hr : unreplayable R st = false) (k : Nat) :
+    build R c st (k + 1) = build R c st k := by
+  have h : ∀ n, build R c st (n + 1) = build R c st 0 := by
+    intro n
+    show (Attempt.mw R c (n + 1) (stateAt R c st (n + 1))).2 = (Attempt.mw R c 0 (stateAt R c st 0)).2
+    rw [mw_after_first c st hr n]; rfl
+  cases k with
+  | zero => exact h 0
+  | succ k => rw [h (k + 1), h k]
+
+theorem foldl_hooks_id (l : List (Nat × (Obs → ReqState → ReqState))) (ob : Obs) (s : ReqState)
+    (h : ∀ x ∈ l, ∀ o s, x.2 o s = s) : l.foldl (fun s x => x.2 ob s) s = s := by
+  induction l generalizing s with
+  | nil => rfl
+  | cons x t ih =>
+    simp only [List.foldl_cons, h x (List.mem_cons_self ..)]
+    exact ih s fun y hy => h y (List.mem_cons_of_mem _ hy)
+
+theorem wires_same_aux (p : Policy ReqState) (c : ClientCfg) (st : ReqState)
+    (hhooks : ∀ x ∈ p.hooks, ∀ o s, x.2 o s = s) (hr : unreplayable R st = false)
+    (script : List Outcome) (ra : Nat) (s : ReqState) (prev : Option Resp)
+    (hinv : Attempt.mw R c ra s = Attempt.mw R c 0 st) :
+    ∀ x ∈ wires (loop R p (Attempt.mw R c) script ra s prev).1, x.2 = build R c st 0 := by
+  induction script generalizing ra s prev with
+  | nil => simp [loop, wires]
+  | cons o rest ih =>
+    by_cases h : wants p o ra = true
+    · obtain ⟨ev, hev, _, hw, _⟩ := iter_cont p (Attempt.mw R c) o ra s prev h
+      rw [loop_cons_cont p (Attempt.mw R c) o rest ra s prev h, wires_append, hev]
+      have hns : nextState p (Attempt.mw R c) o ra s = (Attempt.mw R c 0 st).1 := by
+        unfold nextState
+        rw [foldl_hooks_id _ _ _ (fun x hx => hhooks x (by simpa using hx)), hinv]
+      intro x hx
+      rcases List.mem_append.mp hx with h1 | h1
+      · simp only [hw, List.mem_singleton] at h1
+        rw [h1, hinv]; rfl
+      · refine ih (ra + 1) _ _ ?_ x h1
+        rw [hns]
+        exact mw_fix c 0 ra st hr
+    · have h' : wants p o ra = false := by simpa using h
+      obtain ⟨ev, fin, hev, _, _, hw, -⟩ := iter_stop p (Attempt.mw R c) o ra s prev h'
+      obtain ⟨fin', _, hl⟩ := loop_cons_stop p (Attempt.mw R c) o rest ra s prev h'
+      rw [hl, hev]
+      intro x hx
+      simp only [hw] at hx
+      split at hx
+      · simp at hx
+      · simp only [List.mem_singleton] at hx
+        rw [hx, hinv]; rfl
+
+/-- **every attempt identical, whole call**: in a run of `Request.Do` whose retry hooks leave
+the request alone, every request that reaches the wire — whatever the outcome script, the retry
+count, the conditions — is the request of the first attempt. -/
+theorem all_attempts_same_wire (p : Policy ReqState) (c : ClientCfg) (st : ReqState)
+    (script : List Outcome)
+    (hhooks : ∀ x ∈ p.hooks, ∀ o s, x.2 o s = s) :
+    ∀ x ∈ wires (run R p (Attempt.mw R c) (unreplayable R st) script st).events, x.2 = build R c st 0 := by
+  unfold run
+  split
+  · simp [wires]
+  · rename_i hc
+    by_cases hr : unreplayable R st = false
+    · exact wires_same_aux p c st hhooks hr script 0 st none rfl
+    · -- an unreplayable body that is not refused is sent at most once
+      have hr' : unreplayable R st = true := by simpa using hr
+      have hd : p.enabled = false ∨ p.maxRetries = 0 := by
+        by_cases he : p.enabled = true
+        · by_cases hn : p.maxRetries = 0
+          · exact Or.inr hn
+          · simp [he, hn, hr'] at hc
+        · exact Or.inl (by simpa using he)
+      cases script with
+      | nil => simp [loop, wires]
+      | cons o rest =>
+        have hw : wants p o 0 = false := by
+          cases hw : wants p o 0 with
+          | false => rfl
+          | true =>
+            have := (wants_iff p o 0).mp hw
+            rcases hd with h | h
+            · simp [h] at this
+            · have := this.2.2.2.2.1; omega
+        obtain ⟨ev, fin, hev, _, _, hwi, -⟩ := iter_stop p (Attempt.mw R c) o 0 st none hw
+        obtain ⟨fin', _, hl⟩ := loop_cons_stop p (Attempt.mw R c) o rest 0 st none hw
+        rw [hl, hev]
+        intro x hx
+        simp only [hwi] at hx
+        split at hx
+        · simp at hx
+        · simp only [List.mem_singleton] at hx
+          rw [hx]; rfl
+
+/-- `Do` refuses exactly the requests the identity theorem excludes (when a retry can follow). -/
+theorem refused_iff_unreplayable (p : Policy ReqState) (c : ClientCfg) (st : ReqState)
+    (script : List Outcome) (he : p.enabled = true) (hn : p.maxRetries ≠ 0) :
+    (run R p (Attempt.mw R c) (unreplayable R st) script st).final = .refused ↔ unreplayable R st = true := by
+  constructor
+  · intro h
+    by_cases hu : unreplayable R st = true
+    · exact hu
+    · have hu' : unreplayable R st = false := by simpa using hu
+      exfalso
+      simp only [run, he, hn, hu', bne_iff_ne, ne_eq, not_false_eq_true, decide_true, Bool.and_false,
+        Bool.false_eq_true, ↓reduceIte] at h
+      -- the loop itself never answers `refused`
+      have : ∀ (script : List Outcome) (ra : Nat) (s : ReqState) (prev : Option Resp),
+          (loop R p (Attempt.mw R c) script ra s prev).2 ≠ .refused := by
+        intro script
+        induction script with
+        | nil => intro ra s prev; simp [loop]
+        | cons o rest ih =>
+          intro ra s prev
+          by_cases hw : wants p o ra = true
+          · rw [loop_cons_cont p (Attempt.mw R c) o rest ra s prev hw]; exact ih _ _ _
+          · have hw' : wants p o ra = false := by simpa using hw
+            obtain ⟨ev1, fin, hev, _, _, _, hb, hnb⟩ := iter_stop p (Attempt.mw R c) o ra s prev hw'
+            obtain ⟨fin', hf', hl⟩ := loop_cons_stop p (Attempt.mw R c) o rest ra s prev hw'
+            rw [hl]
+            rw [hev] at hf'
+            simp only [Sum.inl.injEq] at hf'
+            subst hf'
+            by_cases ho : o = .beforeErr
+            · rw [hb ho]; simp
+            · obtain ⟨e, he, -⟩ := hnb ho
+              rw [he]; simp
+      exact this script 0 st none h
+  · intro hu
+    simp [run, he, hn, hu]
+
+end wire
+
+/-! ## Part 3 — the built-in backoff stays within its bounds -/
+
+section backoff
+open Req.Backoff
+
+theorem two_pow_pos (a : Nat) : 1 ≤ (2 : Int) ^ a := by
+  induction a with
+  | zero => simp
+  | succ k ih => rw [Int.pow_succ]; omega
+
+theorem two_pow_ge_two (a : Nat) (ha : 1 ≤ a) : 2 ≤ (2 : Int) ^ a := by
+  cases a with
+  | zero => omega
+  | succ k => rw [Int.pow_succ]; have := two_pow_pos k; omega
+
+theorem temp_bounds (mn mx : Int) (a : Nat) (hmin : 0 < mn) (ha : 1 ≤ a) :
+    temp mn mx a ≤ mx ∧ (2 * mn ≤ mx → 2 * mn ≤ temp mn mx a) ∧ (mx ≤ 2 * mn → temp mn mx a = mx) := by
+  have hp := two_pow_ge_two a ha
+  have hx : mn * 2 ≤ mn * (2 : Int) ^ a := Int.mul_le_mul_of_nonneg_left hp (Int.le_of_lt hmin)
+  unfold temp
+  simp only
+  split <;> refine ⟨?_, ?_, ?_⟩ <;> omega
+
+/-- **backoff_bounds**: for `0 < min`, `2ns ≤ max` (`min ≤ max` is not even needed) and attempt numbers `≥ 1` (the loop
+passes 1, 2, …) the interval never panics and lies in `[half, 2·half)` with
+`half = ⌊min(max, min·2^attempt)/2⌋ ≥ 1`, hence below `max`; and it is at least `min` whenever
+`2·min ≤ max`.  Whatever the jitter, with or without the C10-4 guard. -/
+theorem backoff_bounds (guard : Bool) (mn mx : Int) (a jitter : Nat)
+    (hmin : 0 < mn) (hmax : 2 ≤ mx) (ha : 1 ≤ a) :
+    ∃ d, interval guard mn mx a jitter = .ok d ∧
+      0 < half mn mx a ∧ half mn mx a ≤ d ∧ d < 2 * half mn mx a ∧ 2 * half mn mx a ≤ mx ∧
+      (2 * mn ≤ mx → mn ≤ d) := by
+  obtain ⟨h1, h2, h3⟩ := temp_bounds mn mx a hmin ha
+  have ht2 : 2 ≤ temp mn mx a := by
+    by_cases h : 2 * mn ≤ mx
+    · have := h2 h; omega
+    · have := h3 (by omega); omega
+  have hdiv : half mn mx a = temp mn mx a / 2 := by
+    unfold half; exact Int.tdiv_eq_ediv_of_nonneg (by omega)
+  have hpos : 0 < half mn mx a := by omega
+  have hmod : ((jitter % (half mn mx a).toNat : Nat) : Int) < half mn mx a := by
+    have : jitter % (half mn mx a).toNat < (half mn mx a).toNat := Nat.mod_lt _ (by omega)
+    omega
+  refine ⟨half mn mx a + (jitter % (half mn mx a).toNat : Nat), ?_, hpos, by omega, by omega, by omega, ?_⟩
+  · unfold interval
+    simp only
+    rw [if_neg (by omega)]
+  · intro h
+    have := h2 h
+    omega
+
+/-- Outside that domain the code as found panics in `rand.Int63n(0)`: `min = 0` … -/
+theorem asFound_backoff_panics_min0 : interval false 0 1000000000 1 0 = .panic := by decide
+/-- … a `max` below 2ns … -/
+theorem asFound_backoff_panics_small_max : interval false 1 1 1 0 = .panic := by decide
+/-- … `max < min` with a zero cap, and negative bounds. -/
+theorem asFound_backoff_panics_zero_cap : interval false 1000000000 0 3 0 = .panic := by decide
+theorem asFound_backoff_panics_negative : interval false (-5) 100 2 7 = .panic := by decide
+
+/-- With fixes/C10-4 the function is total: it answers 0 where it used to panic. -/
+theorem repaired_backoff_total (mn mx : Int) (a jitter : Nat) :
+    ∃ d, interval true mn mx a jitter = .ok d ∧ 0 ≤ d := by
+  unfold interval
+  simp only
+  split
+  · exact ⟨0, rfl, by omega⟩
+  · exact ⟨_, rfl, by omega⟩
+
+example : interval true 0 1000000000 1 0 = .ok 0 := by decide
+example : interval false 100 1000 2 7 = .ok 207 := by decide
+example : interval false 100 1000 9 499 = .ok 999 := by decide
+
+end backoff
+
+/-! ## Part 4 — the effective policy: client → request cloning, Set vs Add -/
+
+section policy
+
+theorem clone_id (o : Option RetryOption) : RetryOption.clone o = o := by
+  cases o <;> simp [RetryOption.clone]
+
+/-- A request starts from the client's policy exactly as the client-level setters left it;
+request-level setters then act on the request's own copy. -/
+theorem effective_eq (cops rops : List Setter) :
+    effective cops rops = (cops ++ rops).foldl Setter.apply none := by
+  simp [effective, clone_id, List.foldl_append]
+
+theorem fold_addCond (o : RetryOption) (adds : List Nat) :
+    (adds.map Setter.addCond).foldl Setter.apply (some o) = some { o with conds := o.conds ++ adds } := by
+  induction adds generalizing o with
+  | nil => simp
+  | cons a t ih => simp [Setter.apply, ih, List.append_assoc]
+
+theorem fold_addHook (o : RetryOption) (adds : List Nat) :
+    (adds.map Setter.addHook).foldl Setter.apply (some o) = some { o with hooks := o.hooks ++ adds } := by
+  induction adds generalizing o with
+  | nil => simp
+  | cons a t ih => simp [Setter.apply, ih, List.append_assoc]
+
+/-- `SetRetryCondition` replaces every condition registered before it — client-level ones
+included; conditions added afterwards are appended. -/
+theorem setCond_overrides (cops rops : List Setter) (c : Nat) (adds : List Nat) :
+    (effective cops (rops ++ [.setCond c] ++ adds.map .addCond)).map (·.conds) = some (c :: adds) := by
+  rw [effective_eq]
+  simp only [← List.append_assoc, List.foldl_append, List.foldl_cons, List.foldl_nil]
+  generalize List.foldl Setter.apply none (cops ++ rops) = o
+  simp [Setter.apply, fold_addCond]
+
+theorem setHook_overrides (cops rops : List Setter) (h : Nat) (adds : List Nat) :
+    (effective cops (rops ++ [.setHook h] ++ adds.map .addHook)).map (·.hooks) = some (h :: adds) := by
+  rw [effective_eq]
+  simp only [← List.append_assoc, List.foldl_append, List.foldl_cons, List.foldl_nil]
+  generalize List.foldl Setter.apply none (cops ++ rops) = o
+  simp [Setter.apply, fold_addHook]
+
+/-- `AddRetryCondition` at request level keeps the client-level conditions in front (they are
+therefore asked AFTER the request-level ones: evaluation is last-to-first). -/
+theorem addCond_keeps_client (cops : List Setter) (o : RetryOption) (adds : List Nat)
+    (h : cops.foldl Setter.apply none = some o) :
+    (effective cops (adds.map .addCond)).map (·.conds) = some (o.conds ++ adds) := by
+  simp [effective, clone_id, h, fold_addCond]
+
+/-- The last count set wins, at whichever level. -/
+theorem count_last_wins (cops rops : List Setter) (n : Int) :
+    (effective cops (rops ++ [.count n])).map (·.maxRetries) = some n := by
+  rw [effective_eq]
+  simp only [← List.append_assoc, List.foldl_append, List.foldl_cons, List.foldl_nil]
+  generalize List.foldl Setter.apply none (cops ++ rops) = o
+  simp [Setter.apply]
+
+/-- Without any setter at either level the request has no retry option: exactly one attempt. -/
+theorem no_setter_no_option : effective [] [] = none := rfl
+
+/-- Conditions are asked last-registered-first, and only until one says yes: the condition
+events of one pass are the refusals of the trailing conditions followed by the first yes. -/
+theorem conds_last_to_first {W : Type} (ob : Obs) (cs : List (Nat × (Obs → Bool))) :
+    (evalConds (W := W) ob cs).1 =
+      ((cs.takeWhile fun c => !c.2 ob).map fun c => Event.cond c.1 ob false) ++
+      (match cs.find? fun c => c.2 ob with
+       | some c => [Event.cond c.1 ob true]
+       | none => []) := by
+  induction cs with
+  | nil => simp [evalConds]
+  | cons c t ih =>
+    obtain ⟨id, f⟩ := c
+    unfold evalConds
+    by_cases h : f ob = true
+    · simp [h]
+    · have h' : f ob = false := by simpa using h
+      simp [h', ih]
+
+end policy
+
+/-! ## Part 5 — the code as found: counter-examples, and non-vacuity of the theorems above
+
+Each `asFound_*` statement is the negation of a theorem above at a concrete input, for the
+faithful model of the pinned tree; the same inputs are replayed on the implementation by
+`c10Witnesses` (harness), where they are classed as the known findings of DESIGN §5 rows 2–6
+and C10-6. -/
+
+section witnesses
+open Req.Attempt
+
+/-- a client with cookie `a=1` and form field `k=v` -/
+def exCfg : ClientCfg :=
+  { cookies := [([97], [49])], headers := [([88], [[49]])], form := [([107], [[118]])], query := [],
+    allowGetPayload := true, detect := fun _ => [116], boundaryCT := [66], formCT := [70], jsonCT := [74],
+    ctKey := [67], mGet := [71], mHead := [72], mOptions := [79] }
+
+/-- `POST` with request cookie `r=2`, no body of its own -/
+def exReq : ReqState :=
+  { method := [80], url := [117], cookies := [([114], [50])], headers := [], form := [], ordered := [],
+    query := [], multipart := false, files := [], body := .none }
+
+/-- a multipart upload through `SetFileReader(strings.NewReader("x"))` -/
+def exUpload : ReqState :=
+  { exReq with multipart := true, files := [⟨[112], [110], [], .seeker [120] false⟩] }
+
+/-- row 2: the client cookie is sent once, twice, three times -/
+theorem asFound_cookie_dup :
+    (build .asFound exCfg exReq 0).cookies = [([114], [50]), ([97], [49])] ∧
+    (build .asFound exCfg exReq 1).cookies = [([114], [50]), ([97], [49]), ([97], [49])] ∧
+    (build .asFound exCfg exReq 2).cookies = [([114], [50]), ([97], [49]), ([97], [49]), ([97], [49])] := by
+  decide
+
+/-- row 3: `k=v` becomes `k=v&k=v` on the retry -/
+theorem asFound_form_dup :
+    (build .asFound exCfg exReq 0).body = .form [([107], [[118]])] ∧
+    (build .asFound exCfg exReq 1).body = .form [([107], [[118], [118]])] := by
+  decide
+
+/-- C10-6: the reader upload is sent empty on the retry -/
+theorem asFound_upload_emptied :
+    (build .asFound exCfg exUpload 0).body = .multipart [] [⟨[112], [110], [116], [120]⟩] ∧
+    (build .asFound exCfg exUpload 1).body = .multipart [] [⟨[112], [110], [116], []⟩] := by
+  decide
+
+/-- the repaired middleware on the same inputs (instances of `attempts_identical`) -/
+example : build R exCfg exReq 2 = build R exCfg exReq 0 := by decide
+example : build R exCfg exUpload 1 = build R exCfg exUpload 0 := by decide
+example : unreplayable R exReq = false ∧ unreplayable R exUpload = false := by decide
+example : (build R exCfg exReq 1).cookies = [([114], [50]), ([97], [49])] := by decide
+/-- a non-rewindable reader upload and an `io.Reader` body are what `Do` refuses -/
+example : unreplayable R { exUpload with files := [⟨[112], [110], [], .stream [120] false⟩] } = true := by decide
+example : unreplayable R { exReq with body := .reader [120] false } = true := by decide
+
+/-- a policy over a trivial request state: `SetRetryCount(2)`, default rule -/
+def exPolicy (after : List (Obs → Bool)) : Policy Unit :=
+  ⟨true, 2, [], [(0, fun _ s => s), (1, fun _ s => s)], after, .fixed 0⟩
+def exMw : Nat → Unit → Unit × Nat := fun ra s => (s, ra)
+
+/-- row 4: with a request-level response middleware that returns nil, two transport errors
+lead to ONE attempt under the code as found; the specification (and the repaired code) make
+three. -/
+theorem asFound_after_erases_err :
+    iterations (loop .asFound (exPolicy [fun _ => false]) exMw [.transportErr, .transportErr, .status 200] 0 () none).1 = 1 ∧
+    specAttempts (exPolicy [fun _ => false]) [.transportErr, .transportErr, .status 200] 0 = 3 ∧
+    iterations (loop R (exPolicy [fun _ => false]) exMw [.transportErr, .transportErr, .status 200] 0 () none).1 = 3 := by
+  decide
+
+/-- row 6: a `(nil, err)` round trip with a retry due dereferences nil under the code as found;
+the repaired code retries and returns the second attempt's response. -/
+theorem asFound_nil_resp_panics :
+    (loop .asFound (exPolicy []) exMw [.nilResp, .status 200] 0 () none).2 = .panic ∧
+    (loop R (exPolicy []) exMw [.nilResp, .status 200] 0 () none).2 = .done (some ⟨1, .status 200, none⟩) none := by
+  decide
+
+/-- non-vacuity of `hooks_once_per_retry`: two retries, hooks 1 then 0 each time, attempts 1 and 2 -/
+example : calls (loop R (exPolicy []) exMw [.transportErr, .deadline, .status 200] 0 () none).1 =
+    [.hook 1 1, .hook 0 1, .interval 1, .hook 1 2, .hook 0 2, .interval 2] := by decide
+/-- … of `attempts_bound`: five failures, count 2, three attempts -/
+example : iterations (run R (exPolicy []) exMw false
+    [.transportErr, .transportErr, .transportErr, .transportErr, .transportErr] ()).events = 3 := by decide
+/-- … of `retry_iff`: a cancelled context stops the loop although retries are left -/
+example : iterations (loop R (exPolicy []) exMw [.transportErr, .cancelled, .status 200] 0 () none).1 = 2 := by
+  decide
+/-- … of `result_is_last` -/
+example : ((loop R (exPolicy []) exMw [.transportErr, .badBody 500, .transportErr, .status 200] 0 () none).2).returned
+    = some (some (2, .noHttp), some (2, .transport)) := by decide
+/-- … of `unbounded_when_negative`: count −1, nine failures, nine attempts and the script is exhausted -/
+example : iterations (loop R (⟨true, -1, [], [], [], .dflt⟩ : Policy Unit) exMw
+    (List.replicate 9 .transportErr) 0 () none).1 = 9 := by decide
+/-- … of `unreplayable_fails_upfront` -/
+example : (run R (exPolicy []) exMw true [.status 200] ()).final = .refused := by decide
+/-- conditions override the default rule: a 503 is retried, a transport error is not -/
+example : iterations (loop R (⟨true, 5, [(0, fun o => o.resp == .status 503)], [], [], .dflt⟩ : Policy Unit) exMw
+    [.status 503, .status 503, .transportErr, .status 200] 0 () none).1 = 3 := by decide
+
+end witnesses
+
+end Req.Props.C10
